@@ -1,6 +1,6 @@
 \* Template: bin/check substitutes the @@..@@ fields (checks/c07.py CONFIGS). By hand, e.g.
 \*   sed -e 's/@@NC@@/3/;s/@@OPS@@/2/;s/@@BACKENDS@@/{"consul","etcd","memberlist"}/;s/@@LIMITS@@/{10}/;s/@@MAXERR@@/1/' \
-\*       -e 's/@@SECONDARIES@@/{"none"}/;s/@@DELETE@@/FALSE/;s/@@SAME@@/FALSE/;s/@@NW@@/0/;s/@@EMIT@@/FALSE/;s/@@INV@@/Serial SeenChain NoLostNoPhantom SawCurrent/' MC.cfg > MC_x.cfg
+\*       -e 's/@@SECONDARIES@@/{"none"}/;s/@@DELETE@@/FALSE/;s/@@SAME@@/FALSE/;s/@@BAD@@/FALSE/;s/@@NOTHER@@/0/;s/@@NW@@/0/;s/@@EMIT@@/FALSE/;s/@@INV@@/Serial SeenChain NoLostNoPhantom SawCurrent/' MC.cfg > MC_x.cfg
 CONSTANTS
   NC = @@NC@@
   OpsPer = @@OPS@@
@@ -10,6 +10,8 @@ CONSTANTS
   Secondaries = @@SECONDARIES@@
   WithDelete = @@DELETE@@
   WithSame = @@SAME@@
+  WithBad = @@BAD@@
+  NOther = @@NOTHER@@
   NW = @@NW@@
   Emit = @@EMIT@@
 INIT Init
